@@ -266,8 +266,8 @@ class Net:
 
     def poke(self, s):
         """an application call may have produced a wake token"""
-        if s.wq.tokens > 0:
-            self.wake[s.idx] = min(self.wake[s.idx], self.w.now)
+        if s.wq.tokens > 0 and not s.dead:
+            self.wake[s.idx] = self.w.now if self.wake[s.idx] is None else min(self.wake[s.idx], self.w.now)
 
     def next_event(self):
         best = None
